@@ -514,6 +514,27 @@ func Observe(rd ReadAPI, p *Pool) string {
 			}
 		}
 	}
+	// differential: Routes / Reverse over several methods at once (all pool methods behind a method nobody uses, in
+	// both orders) yield exactly what the single-method calls yield, one after the other
+	for _, pt := range p.Patterns {
+		var single []string
+		for _, m := range p.Methods {
+			for mm, r := range it.Routes(seq1(m), pt) {
+				single = append(single, fmt.Sprintf("%s#%d", mm, fx.RouteVer(r)))
+			}
+		}
+		sort.Strings(single)
+		for oi, order := range [][]string{append([]string{"ZZUNUSED"}, p.Methods...), append(reversedStrings(p.Methods), "ZZUNUSED")} {
+			var multi []string
+			for mm, r := range it.Routes(slices.Values(order), pt) {
+				multi = append(multi, fmt.Sprintf("%s#%d", mm, fx.RouteVer(r)))
+			}
+			sort.Strings(multi)
+			if !slices.Equal(single, multi) {
+				fmt.Fprintf(&sb, "Iter.Routes(%v, %s) yields %v, the single-method calls yield %v (order %d)\n", order, pt, multi, single, oi)
+			}
+		}
+	}
 	for _, m := range p.Methods {
 		for _, pt := range p.Patterns {
 			has := rd.Has(m, pt)
@@ -548,6 +569,14 @@ func Observe(rd ReadAPI, p *Pool) string {
 		}
 	}
 	return sb.String()
+}
+
+func reversedStrings(in []string) []string {
+	out := make([]string, len(in))
+	for i, x := range in {
+		out[len(in)-1-i] = x
+	}
+	return out
 }
 
 func patOf(r *fox.Route) string {
